@@ -188,6 +188,16 @@ def model_exe(cluster):
     return os.path.join(OCAML_GEN, cluster.lower() + '_main')
 
 
+def target_dir(crate):
+    """Heavy crates (those depending on the `fuel-core` crate) are built in their own target
+    directory so that they do not hold the cargo lock of the light ones: a harness crate opts in
+    with a file `harness/<crate>/TARGET_DIR` holding the directory name (relative to /verif)."""
+    f = os.path.join(ROOT, 'harness', crate, 'TARGET_DIR')
+    if os.path.exists(f):
+        return os.path.join(ROOT, open(f).read().strip())
+    return TARGET
+
+
 def build_harness(crate, profile='dev', timeout=3600):
     lock_src = '/repo/Cargo.lock'
     lock_dst = os.path.join(ROOT, 'harness', 'Cargo.lock')
@@ -196,12 +206,13 @@ def build_harness(crate, profile='dev', timeout=3600):
     cmd = ['cargo', 'build', '--offline', '-p', crate]
     if profile == 'release':
         cmd.append('--release')
-    rc, out = sh(cmd, timeout, cwd=os.path.join(ROOT, 'harness'))
+    env = dict(ENV, CARGO_TARGET_DIR=target_dir(crate))
+    rc, out = sh(cmd, timeout, cwd=os.path.join(ROOT, 'harness'), env=env)
     return rc, out
 
 
 def harness_exe(crate, profile='dev'):
-    return os.path.join(TARGET, 'release' if profile == 'release' else 'debug', crate)
+    return os.path.join(target_dir(crate), 'release' if profile == 'release' else 'debug', crate)
 
 
 def _run_lines(cmd, lines, timeout):
@@ -242,10 +253,10 @@ def harness_run(exe, prop, inputs, timeout=3600, shard=4000, workers=16):
     return obs
 
 
-def model_run(cluster, tag, inputs, observed, timeout=3600):
+def model_run(cluster, tag, inputs, observed, timeout=3600, shard=4000):
     """-> list of (model_out_str, pcheck_bool or None, raw)."""
     reqs = ['(%d %s %s)' % (tag, i, o.split(';')[0].strip()) for i, o in zip(inputs, observed)]
-    res = run_sharded([model_exe(cluster)], reqs, timeout)
+    res = run_sharded([model_exe(cluster)], reqs, timeout, shard)
     out = []
     for r in res:
         try:
@@ -270,12 +281,12 @@ def load_known():
     return json.load(open(p))
 
 
-def match_known(prop, inp_t, obs_t, known):
+def match_known(prop, inp_t, obs_t, known, pcode=0):
     for k in known.get('findings', []):
         if k.get('property') != prop or k.get('status', 'open') != 'open':
             continue
         try:
-            if eval(k['match'], {'__builtins__': {}}, {'inp': inp_t, 'obs': obs_t, 'len': len, 'any': any, 'all': all, 'isinstance': isinstance, 'int': int, 'list': list, 'max': max, 'min': min, 'sum': sum, 'range': range}):
+            if eval(k['match'], {'__builtins__': {}}, {'inp': inp_t, 'obs': obs_t, 'pcode': pcode, 'len': len, 'any': any, 'all': all, 'isinstance': isinstance, 'int': int, 'list': list, 'max': max, 'min': min, 'sum': sum, 'range': range}):
                 return k
         except Exception:
             continue
@@ -334,7 +345,7 @@ def evaluate(spec, inputs, known, exe, timeout=3600):
     prop = spec['id']
     out = Outcome()
     obs = harness_run(exe, prop, inputs, timeout, spec.get('shard', 4000), spec.get('workers', 16))
-    mod = model_run(spec['cluster'], spec['tag'], inputs, obs, timeout)
+    mod = model_run(spec['cluster'], spec['tag'], inputs, obs, timeout, spec.get('shard', 4000))
     seen = set()
     classify = spec.get('classify')
     for inp, o, (m, pc, raw) in zip(inputs, obs, mod):
@@ -359,7 +370,8 @@ def evaluate(spec, inputs, known, exe, timeout=3600):
         if len(out.samples) < 3 and out.n % 97 in (1, 2, 3):
             out.samples.append({'input': inp[:400], 'observed': o_clean[:400], 'model': m[:400], 'pcheck': pc})
         if not pc:
-            k = match_known(prop, i_t, o_t, known)
+            pcode = raw[1] if isinstance(raw, list) and len(raw) >= 2 and isinstance(raw[1], int) else 0
+            k = match_known(prop, i_t, o_t, known, pcode)
             if k:
                 out.known[k['id']] = out.known.get(k['id'], 0) + 1
                 # a known failing class must still agree with the model
@@ -397,7 +409,8 @@ def shrink(spec, exe, known, inp, pred, rounds=40, width=300):
                 o_t = tfmt.parse(o_clean)
             except ValueError:
                 continue
-            if pred(c, o_t, o_clean, m, pc) and c != cur:
+            pcode = raw[1] if isinstance(raw, list) and len(raw) >= 2 and isinstance(raw[1], int) else 0
+            if pred(c, o_t, o_clean, m, pc, pcode) and c != cur:
                 if found is None or tfmt.size(c) < tfmt.size(found):
                     found = c
         if found is None:
@@ -511,7 +524,7 @@ def run_check(spec, tier, seed, replay=None):
         if not spec.get('no_shrink'):
             try:
                 small = shrink(spec, exe_p, known, inp,
-                               lambda c, o_t, o_s, m_s, pc: (not pc) and match_known(prop, c, o_t, known) is None)
+                               lambda c, o_t, o_s, m_s, pc, pcode=0: (not pc) and match_known(prop, c, o_t, known, pcode) is None)
             except Exception as e:     # shrinking is best effort
                 log('shrink failed:', e)
         so = harness_run(exe_p, prop, [small], 600)[0]
@@ -542,7 +555,7 @@ def run_check(spec, tier, seed, replay=None):
             small = inp
             try:
                 small = shrink(spec, exe, known, inp,
-                               lambda c, o_t, o_s, m_s, pc: (not pc) and match_known(prop, c, o_t, known) is None)
+                               lambda c, o_t, o_s, m_s, pc, pcode=0: (not pc) and match_known(prop, c, o_t, known, pcode) is None)
             except Exception as e:
                 log('shrink failed:', e)
             so = harness_run(exe, prop, [small], 600)[0]
@@ -557,7 +570,7 @@ def run_check(spec, tier, seed, replay=None):
                 small = inp
                 try:
                     small = shrink(spec, harness_exe(spec['crate'], prof), known, inp,
-                                   lambda c, o_t, o_s, m_s, pc: o_s != m_s)
+                                   lambda c, o_t, o_s, m_s, pc, pcode=0: o_s != m_s)
                     so = harness_run(harness_exe(spec['crate'], prof), prop, [small], 600)[0]
                     sm = model_run(cluster, spec['tag'], [small], [so], 600)[0][0]
                 except Exception as e:
